@@ -166,7 +166,15 @@ example : getEpoch (run {} [.add 3 (ep 1)]) 3 = some (ep 1) ∧
     ∀ op ∈ [EpochOp.add 3 (ep 9), .replaceOrAdd 4 (ep 2), .remove 5, .removeByConfig "q" (some 4)], ¬ touches 3 op := by
   decide
 example : FreshRun {} [.add 3 (ep 1), .replaceOrAdd 3 (ep 2), .removeByConfig "p" (some 3)] := by
-  refine .cons ?_ (.cons ?_ (.cons ?_ (.nil _))) <;> simp [freshOp, step, lookup, insert, erase, ep]
+  refine .cons ?_ (.cons ?_ (.cons ?_ (.nil _)))
+  · simp [freshOp, EpochSet.lookup]
+  · refine ⟨fun e' v' h => ?_, by simp [step, EpochSet.lookup]⟩
+    have hs : (step {} (.add 3 (ep 1))).m = EpochSet.insert 3 (ep 1) [] := by decide
+    rw [hs, lookup_insert] at h
+    split at h
+    · cases h; simp [ep]
+    · cases h
+  · trivial
 example : (run {} [.add 3 (ep 1), .replaceOrAdd 3 (ep 2), .removeByConfig "p" (some 3)]).closed = [1, 2] := by decide
 
 end C09
